@@ -24,6 +24,7 @@ func checkC19(r *Report, p *Program) {
 	r19_3(r, p)
 	r19_4(r, p, impls)
 	r19_5(r, p)
+	keyCompleteness(r, p, "R19.6", "getKeyFromObject")
 }
 
 // webhookAbstractImpls returns the named module types implementing hooks.webhookAbstract.
@@ -192,8 +193,10 @@ func hookCallOrder(r *Report, p *Program, rule string) {
 	if call == nil {
 		return
 	}
+	// Call together with the helpers it may have been split into
+	rg := regionOf(p, call)
 	one := func(suf string) *engine.CallSite {
-		cs := callsTo(call, false, suf)
+		cs := rg.calls(suf)
 		if len(cs) != 1 {
 			r.Fail(rule, FK(call)+"→"+suf, p.Pos(call.Pos()), "anchor-lost", sf("expected exactly one call of %s, found %d", suf, len(cs)))
 			return nil
@@ -206,12 +209,13 @@ func hookCallOrder(r *Report, p *Program, rule string) {
 	}
 	supported := func(l Lit) bool { return l.Pos && engine.SameValue(l.Cond, iss.Instr.Value()) }
 	for name, t := range map[string]*engine.CallSite{"adjustResponse": adj, "UnmarshalStrict": um} {
-		w := unguarded(call, nil, t.Instr.(ssa.Instruction), supported)
+		w := rg.unguarded(t.Instr.(ssa.Instruction), supported)
 		r.Check(rule, FK(call)+"[supported≺"+name+"]", p.InstrPos(t.Instr), w == nil, name+" only for a supported status", name+" runs before / without the status gate: a rejected response (e.g. a 5xx carrying an ETag) can be cached or decoded; "+pathWhy(w))
 	}
-	// unsupported ⇒ error return
+	// unsupported ⇒ error return (of the function holding the gate, handed up to Call's caller)
+	gf := iss.Fn
 	var from []engine.Point
-	for _, b := range call.Blocks {
+	for _, b := range gf.Blocks {
 		for i := range b.Succs {
 			if l, ok := engine.EdgeLit(b, i); ok && !l.Pos && engine.SameValue(l.Cond, iss.Instr.Value()) {
 				from = append(from, engine.Point{B: b.Succs[i]})
@@ -220,24 +224,28 @@ func hookCallOrder(r *Report, p *Program, rule string) {
 	}
 	ok, why := len(from) > 0, "the result of isStatusSupported is not branched on"
 	if ok {
-		if w := (engine.Query{Fn: call, From: from, Target: func(in ssa.Instruction) bool {
+		if w := (engine.Query{Fn: gf, From: from, Target: func(in ssa.Instruction) bool {
 			rt, isR := in.(*ssa.Return)
 			return isR && !isErrReturn(rt)
 		}}).Find(); w != nil {
 			ok, why = false, "an unsupported status does not end in an error"
 		}
 	}
+	if ok && gf != call {
+		ok, why = rg.propagates(rg.site[gf])
+	}
 	r.Check(rule, FK(call)+"[unsupported⇒error]", p.InstrPos(iss.Instr), ok, "unsupported status ⇒ error return", why)
 	// the gate looks at this request/response
-	okA := engine.SameValue(iss.Arg(1), engine.ResultValue(do.Instr, 0)) && engine.SameValue(adj.Arg(3), engine.ResultValue(do.Instr, 0)) && engine.SameValue(iss.Arg(0), do.Arg(0))
+	okA := rg.same(iss.Arg(1), engine.ResultValue(do.Instr, 0)) && rg.same(adj.Arg(3), engine.ResultValue(do.Instr, 0)) && rg.same(iss.Arg(0), do.Arg(0))
 	r.Check(rule, FK(call)+"[gate-args]", p.InstrPos(iss.Instr), okA, "gate and adjustResponse see the request sent and the response received", "isStatusSupported/adjustResponse are not applied to the request sent and the response received")
 	// decode what adjustResponse returned, into the caller's response
-	okD := engine.SameValue(um.Common().Args[0], engine.ResultValue(adj.Instr, 0)) && E(um.Common().Args[1]) == "p2"
+	into, _ := rg.up(um.Common().Args[1]).(*ssa.Parameter)
+	okD := rg.same(um.Common().Args[0], engine.ResultValue(adj.Instr, 0)) && into != nil && into.Parent() == call && len(call.Params) > 2 && into == call.Params[2]
 	r.Check(rule, FK(call)+"[decode-adjusted-body]", p.InstrPos(um.Instr), okD, "decodes adjustResponse's body into the caller's response", "the decoded bytes are not adjustResponse's result / not decoded into the caller's response")
 	// ownership: the bytes handed to adjustResponse (which may cache them) are the fresh result of io.ReadAll
 	okB := false
-	for _, ra := range callsTo(call, false, "io.ReadAll") {
-		if engine.SameValue(adj.Arg(2), engine.ResultValue(ra.Instr, 0)) {
+	for _, ra := range rg.calls("io.ReadAll") {
+		if rg.same(adj.Arg(2), engine.ResultValue(ra.Instr, 0)) {
 			okB = true
 		}
 	}
@@ -246,13 +254,13 @@ func hookCallOrder(r *Report, p *Program, rule string) {
 	okO := len(um.Common().Args) == 3 && isNilConst(um.Common().Args[2])
 	r.Check(rule, FK(call)+"[strict-options-default]", p.InstrPos(um.Instr), okO, "UnmarshalStrict with its default options (unknown and duplicate fields)", "UnmarshalStrict is given explicit options: that replaces the default set, so duplicate or unknown fields are no longer reported in strict mode")
 	for name, t := range map[string]*engine.CallSite{"Do": do, "adjustResponse": adj, "UnmarshalStrict": um} {
-		ok, why := errorDiscipline(p, call, t.Instr, nil, nil)
+		ok, why := rg.propagates(*t)
 		r.Check(rule, FK(call)+"→"+name+"[error]", p.InstrPos(t.Instr), ok, "error returned", why)
 	}
 	// the ETag header enrichment happens before the request is sent
 	if en := one("webhookAbstract.enrichHeaders"); en != nil {
-		w := bypass(call, do.Instr.(ssa.Instruction), func(in ssa.Instruction) bool { return in == en.Instr.(ssa.Instruction) })
-		r.Check(rule, FK(call)+"[enrich≺Do]", p.InstrPos(en.Instr), w == nil && engine.SameValue(en.Arg(0), do.Arg(0)), "headers enriched on the request that is sent", "enrichHeaders does not precede Do on the same request")
+		w := rg.bypass(do.Instr.(ssa.Instruction), func(in ssa.Instruction) bool { return in == en.Instr.(ssa.Instruction) })
+		r.Check(rule, FK(call)+"[enrich≺Do]", p.InstrPos(en.Instr), w == nil && rg.same(en.Arg(0), do.Arg(0)), "headers enriched on the request that is sent", "enrichHeaders does not precede Do on the same request")
 	}
 }
 
@@ -260,15 +268,19 @@ func r19_3(r *Report, p *Program) {
 	const rule = "R19.3"
 	r.Rule(rule, "after a successful decode: error only across strict mode ∧ non-empty strict-error list")
 	r.Floor(rule, 2)
-	call := fn(r, p, rule, "hooks.webhookExecutor.Call")
-	if call == nil {
+	root := fn(r, p, rule, "hooks.webhookExecutor.Call")
+	if root == nil {
 		return
 	}
-	ums := callsTo(call, false, "json.UnmarshalStrict")
+	rg := regionOf(p, root)
+	ums := rg.calls("json.UnmarshalStrict")
 	if len(ums) != 1 {
 		return
 	}
 	um := ums[0]
+	// the function that decodes (Call itself, or the helper it was split into)
+	call := um.Fn
+	rootKey := FK(root)
 	strictList := engine.ResultValue(um.Instr, 0)
 	var from []engine.Point
 	succ := successEdgeOf(um.Instr)
@@ -280,11 +292,19 @@ func r19_3(r *Report, p *Program) {
 		}
 	}
 	if len(from) == 0 {
-		r.Fail(rule, FK(call), p.InstrPos(um.Instr), "undecided", "UnmarshalStrict's error is not tested")
+		r.Fail(rule, rootKey, p.InstrPos(um.Instr), "undecided", "UnmarshalStrict's error is not tested")
 		return
 	}
 	strictOn := func(l *Lit) bool {
-		return l != nil && l.Pos && strings.HasSuffix(l.Atom, "shouldReportStrictErrors)(p0)")
+		if l == nil || !l.Pos {
+			return false
+		}
+		c, isC := l.Cond.(*ssa.Call)
+		if !isC || !strings.HasSuffix(engine.CallKey(c.Common()), ".shouldReportStrictErrors") || len(c.Common().Args) == 0 {
+			return false
+		}
+		recv, _ := rg.up(c.Common().Args[0]).(*ssa.Parameter)
+		return recv != nil && recv.Parent() == root && recv == root.Params[0]
 	}
 	nonEmpty := func(l *Lit) bool {
 		if l == nil || strictList == nil {
@@ -309,9 +329,9 @@ func r19_3(r *Report, p *Program) {
 	}
 	errRet := func(in ssa.Instruction) bool { rt, ok := in.(*ssa.Return); return ok && isErrReturn(rt) }
 	w1 := engine.Query{Fn: call, From: from, Target: errRet, CutEdge: func(b *ssa.BasicBlock, i int, l *Lit) bool { return strictOn(l) }}.Find()
-	r.Check(rule, FK(call)+"[strict-error⇒strict-mode]", p.InstrPos(um.Instr), w1 == nil, "in loose mode a decoded response is never rejected", "a successfully decoded response is rejected outside strict mode; "+pathWhy(w1))
+	r.Check(rule, rootKey+"[strict-error⇒strict-mode]", p.InstrPos(um.Instr), w1 == nil, "in loose mode a decoded response is never rejected", "a successfully decoded response is rejected outside strict mode; "+pathWhy(w1))
 	w2 := engine.Query{Fn: call, From: from, Target: errRet, CutEdge: func(b *ssa.BasicBlock, i int, l *Lit) bool { return nonEmpty(l) }}.Find()
-	r.Check(rule, FK(call)+"[strict-error⇒violations-exist]", p.InstrPos(um.Instr), w2 == nil, "strict mode rejects only when there are strict errors", "in strict mode a well-formed response (no unknown or duplicate fields) is rejected: the 'strict validation failed' error is returned without testing that the strict-error list is non-empty")
+	r.Check(rule, rootKey+"[strict-error⇒violations-exist]", p.InstrPos(um.Instr), w2 == nil, "strict mode rejects only when there are strict errors", "in strict mode a well-formed response (no unknown or duplicate fields) is rejected: the 'strict validation failed' error is returned without testing that the strict-error list is non-empty")
 	// strict ∧ violations ⇒ rejected
 	w3 := engine.Query{Fn: call, From: from, Target: func(in ssa.Instruction) bool { rt, ok := in.(*ssa.Return); return ok && engine.ReturnsNilError(rt) },
 		CutEdge: func(b *ssa.BasicBlock, i int, l *Lit) bool {
@@ -321,7 +341,11 @@ func r19_3(r *Report, p *Program) {
 			neg := l.Negate()
 			return strictOn(&neg) || nonEmpty(&neg)
 		}}.Find()
-	r.Check(rule, FK(call)+"[strict∧violations⇒error]", p.InstrPos(um.Instr), w3 == nil, "strict mode with strict errors ⇒ rejected", "strict mode accepts a response with unknown/duplicate fields")
+	okUp, whyUp := true, ""
+	if call != root {
+		okUp, whyUp = rg.propagates(rg.site[call])
+	}
+	r.Check(rule, rootKey+"[strict∧violations⇒error]", p.InstrPos(um.Instr), w3 == nil && okUp, "strict mode with strict errors ⇒ rejected", "strict mode accepts a response with unknown/duplicate fields"+whyUp)
 	if f := fn(r, p, rule, "hooks.webhookExecutor.shouldReportStrictErrors"); f != nil {
 		ok := false
 		for _, b := range f.Blocks {
@@ -377,8 +401,12 @@ func r19_4(r *Report, p *Program, impls []types.Type) {
 							return false
 						}
 						a, bb := E(l.X), E(l.Y)
-						isTag := func(s string, v ssa.Value) bool { return strings.HasSuffix(s, ".Etag") && engine.DependsOnValue(v, entry, nil) }
-						isHdr := func(s string) bool { return strings.Contains(s, "net/http.Header.Get)(p1.Header") && strings.Contains(s, `"If-None-Match"`) }
+						isTag := func(s string, v ssa.Value) bool {
+							return strings.HasSuffix(s, ".Etag") && engine.DependsOnValue(v, entry, nil)
+						}
+						isHdr := func(s string) bool {
+							return strings.Contains(s, "net/http.Header.Get)(p1.Header") && strings.Contains(s, `"If-None-Match"`)
+						}
 						return isTag(a, l.X) && isHdr(bb) || isTag(bb, l.Y) && isHdr(a)
 					})
 					r.Check(rule, sf("%s→cached-body#%d", FK(adj), i), p.InstrPos(in), w == nil, "cached body returned only if its ETag equals the If-None-Match that was sent", "the cache entry is re-read at response time and its body returned without comparing entry.Etag to the If-None-Match value sent with this request: a concurrent call for the same parent (e.g. another revision of a rolling update) may have replaced the entry, so a 304 is answered with another call's body")
